@@ -125,6 +125,18 @@ def kill_factory() -> CtlProperty:
     return KILL_PROP
 
 
+def cfg_burst(unit: Any) -> ctl.Config:
+    return ctl.Config(alphabet=KILL_ALPHABET, closing=('gates', 'play_if_asked', 'resume_if_none'), resume_default=('dflt',),
+                      burst=True, early_gates=False)
+
+
+BURST_PROP = CtlProperty(ID, Oracle, cfg_burst)
+
+
+def burst_factory() -> CtlProperty:
+    return BURST_PROP
+
+
 def factory() -> CtlProperty:
     return PROP
 
@@ -190,7 +202,22 @@ def run_check(tier: str, seed: int, workers: Any) -> Dict[str, Any]:
         assumptions=[], bounds=dict(kbudget, program_len=2), describe=describe_unit)
     for v in part3['violations']:
         v['features'] = dict(v.get('features', {}), part='kill-withdrawn')
-    return runner.merge([part1, part2, part3])
+    # part (iv): long sequences at few places - up to N requests right behind one another wherever the loop is quiescent
+    w1 = ((('S', (), 'wait'), ('S', (), 'ret')), None)
+    w2 = ((('S', (), 'wait'), ('S', (), 'wait'), ('S', (), 'ret')), None)
+    n1, n2 = (5, 3) if tier == 'quick' else (6, 5)
+    rule4 = ('(iv) bursts: every sequence of <=K requests from ' + repr(KILL_ALPHABET) + ' issued right behind one another '
+             'wherever the loop is quiescent, on the program with one wait (K=%d) and with two waits (K=%d); the closing play is '
+             'given only if a pause request stands (a process that reports paused although the last request was a play is not '
+             'rescued)' % (n1, n2))
+    part4 = runner.merge([
+        runner.run_explorer(burst_factory, (), [w1], {'K': n1}, seed, workers, split_depth=3, rule=rule4, assumptions=[],
+                            bounds={'K': n1, 'placements': 'quiescent points only'}, describe=describe_unit),
+        runner.run_explorer(burst_factory, (), [w2], {'K': n2}, seed, workers, split_depth=3, rule='(iv) two waits', assumptions=[],
+                            bounds={'K': n2, 'placements': 'quiescent points only'}, describe=describe_unit)])
+    for v in part4['violations']:
+        v['features'] = dict(v.get('features', {}), part='burst')
+    return runner.merge([part1, part2, part3, part4])
 
 
 def replay(doc: Dict[str, Any]) -> List[Dict[str, Any]]:
@@ -199,6 +226,8 @@ def replay(doc: Dict[str, Any]) -> List[Dict[str, Any]]:
         return wc_factory().replay(doc)
     if (doc.get('features') or {}).get('part') == 'kill-withdrawn':
         return KILL_PROP.replay(doc)
+    if (doc.get('features') or {}).get('part') == 'burst':
+        return BURST_PROP.replay(doc)
     return PROP.replay(doc)
 
 
